@@ -6,8 +6,10 @@
    Proved: (F1) every other pid is untouched and retrieve_object never serves wrong bytes to
    anybody, the faulted pid being served its old content or the call's; (F3) a store_metadata that
    raises leaves the previous document version intact; (F2) the call returns and leaves no lock,
-   for every fault plan that never fails the flock itself (in particular every one-off fault not
-   delivered to a flock).
+   for EVERY fault plan, the plans that fail the flock itself included
+   ([C13g_fault_returns_no_lock_any], FlockFaults.v; see props/C08flock.v for what a failing flock
+   does and a worked example); [C13g_fault_returns_no_lock] is the earlier form with the
+   hypothesis [noflock].
    (F4), ONE-OFF faults, pid unbound in the start state: a failed tag_object / store_object leaves
    the pid unbound (no reference, in no cid list: no stale line survives a one-off fault), no lock,
    and the same call issued again succeeds ([C13g_tag_one_off_fault], [C13g_store_one_off_fault]).
@@ -35,7 +37,6 @@
    (temp files, the object stored but not tagged) ([C13g_one_off_fault_retry],
    [C13g_one_off_fault_unbound_retry], [C13g_one_off_fault_intact_or_retry]; non-vacuous:
    [C13g_retry_after_leftovers]).
-   NOT proved in general (menu only): (F2) when the flock itself fails.
    For PERSISTENT faults (F4) is false: witness
    [C13g_persistent_fault_defeats_rollback], and the full statement [C13_general_statement] is
    refuted by it ([C13g_statement_false]).
@@ -51,7 +52,7 @@
    example per disjunct: [C13g_persistent_fault_examples]. *)
 From HS Require Import Base PyVal FS Ops Spec Sched Refine CrashFault Integrity CrashGeneral FaultGeneral
   FaultSuccess FaultPersist FaultBound FaultRetry FaultPersistBound.
-From HS Require Bracket Indep.
+From HS Require Bracket Indep FlockFaults.
 
 (* ---------- the fault semantics covered ---------- *)
 
@@ -199,6 +200,30 @@ Theorem C13g_fault_returns_no_lock :
     exists (w : world) (r : outcome value), run_fault st w0 (api c) = Some (w, r) /\ locks w = [].
 Proof. exact fault_returns_no_lock. Qed.
 Print Assumptions C13g_fault_returns_no_lock.
+
+(* (F2) without [noflock]: every state satisfying the invariant, every call, every fault state — the
+   failing operation may be the flock itself (its finaliser then closes a file whose flock it does not
+   hold, which the model answers by an error that is swallowed) *)
+Theorem C13g_fault_returns_no_lock_any :
+  forall (w0 : world) (c : call) (st : fstate),
+    Inv w0 ->
+    exists (w : world) (r : outcome value), run_fault st w0 (api c) = Some (w, r) /\ locks w = [].
+Proof. exact FlockFaults.fault_returns_no_lock_any. Qed.
+Print Assumptions C13g_fault_returns_no_lock_any.
+
+(* non-vacuous: store {1 -> 7}, tag_object(2, 7), the flock of the list of 7 (fault site 8) fails;
+   the plan violates [noflock] *)
+Example C13g_flock_fault_tag_additional_pid :
+  Inv exw17 /\
+  fault_target 8 exw17 (api (CTag 2 7)) = Some (Acquire LFile (IDoc (ACidRef 7))) /\
+  ~ noflock (FWait 8 false) exw17 (api (CTag 2 7)) /\
+  run_fault (FWait 8 false) exw17 (api (CTag 2 7)) = Some (exw17, Exn EOSError).
+Proof.
+  split; [exact exw17_Inv|].
+  destruct FlockFaults.flock_fault_tag_additional_pid as (H1 & H2 & _ & H4).
+  split; [exact H1|]. split; [exact H4|exact H2].
+Qed.
+Print Assumptions C13g_flock_fault_tag_additional_pid.
 
 (* one-off faults: the operation the k-th fault is delivered to *)
 Theorem C13g_fault_target_def :
